@@ -18,6 +18,7 @@ type Action struct {
 	JunkFirst  bool     `json:"-"`                      // third-party blobs come before the genuine ones within the DA height
 	StopAtExec int      `json:"stop_at_exec,omitempty"` // ask the node to stop right after the n-th block application from now persisted its state (kind "da", NoBarrier)
 	More       [][]Item `json:"more,omitempty"`         // further DA heights filled in the same action (kind "da")
+	Gate       bool     `json:"gate,omitempty"`         // with StopAtExec: the first application of the action ends only when the scan has handed over everything
 	NoBarrier  bool     `json:"nb,omitempty"`           // do not wait for the sync loop after this action (events may still be queued)
 }
 
@@ -39,6 +40,9 @@ func (a Action) String() string {
 			s = "da!["
 			if a.StopAtExec > 0 {
 				s = fmt.Sprintf("da!stop@apply%d[", a.StopAtExec)
+				if a.Gate {
+					s = fmt.Sprintf("da!lagging,stop@apply%d[", a.StopAtExec)
+				}
 			}
 		}
 		for _, it := range a.DA {
@@ -86,6 +90,9 @@ type FN struct {
 	Release func()
 	// slow makes every execution call take a moment, so that the sync loop lags behind the DA scan
 	slow atomic.Bool
+	// gate (with slow): an execution call waits until the DA scan of the current action is idle (scanIdle)
+	gate     atomic.Bool
+	scanIdle atomic.Bool
 	// stopAfterExecs > 0: the loops' context is cancelled when that many further execution calls have started
 	stopAfterExecs atomic.Int64
 }
@@ -103,6 +110,14 @@ func NewFNPrepared(ctx context.Context, p *Produced, rootDir string, prepare fun
 	f.DA.AutoAdvance = false
 	f.Exec.Delay = func(kind string) {
 		if kind == "exec" && f.slow.Load() {
+			if f.gate.Load() {
+				// the consumer lags as far as it can: the application in progress ends only when the scan has handed over
+				// everything it found (bounded, in case the scan itself waits for the consumer)
+				for i := 0; i < 2000 && !f.scanIdle.Load(); i++ {
+					time.Sleep(100 * time.Microsecond)
+				}
+				return
+			}
 			time.Sleep(1500 * time.Microsecond)
 		}
 
@@ -158,6 +173,7 @@ func (f *FN) Restart(clean bool) error {
 	}
 	f.Restarts++
 	f.slow.Store(false)
+	f.gate.Store(false)
 	f.stopAfterExecs.Store(0)
 	old := f.N
 	return f.start(old)
@@ -192,6 +208,8 @@ func (f *FN) Do(a Action) error {
 			f.slow.Store(true) // the consumer lags: events pile up in the hand-off channels
 			if a.StopAtExec > 0 {
 				f.stopAfterExecs.Store(int64(a.StopAtExec))
+				f.scanIdle.Store(false)
+				f.gate.Store(a.Gate)
 			}
 		}
 		h := f.daNext
@@ -216,8 +234,10 @@ func (f *FN) Do(a Action) error {
 		}
 		f.DA.SetHeight(h)
 		if err := f.L.RetrieveUntilIdle(f.DA, h+1); err != nil {
+			f.scanIdle.Store(true)
 			return err
 		}
+		f.scanIdle.Store(true)
 		for _, it := range all {
 			if it.D {
 				f.GotD[it.I] = true
